@@ -86,13 +86,31 @@ def build_harness(bins):
 
 # ------------------------------------------------------------------ Coq
 
+COQPROJECT_HEAD = """-Q theories GW
+-Q props GWP
+-arg -w -arg -notation-overridden,-deprecated-hint-without-locality,-deprecated-instance-without-locality
+"""
+
+
 def coq_makefile():
-    mk = os.path.join(COQ, "Makefile")
+    """_CoqProject is generated from the files present (theories/*.v, props/*.v) so that
+    adding a file needs no shared edit; the Makefile is regenerated when the set changes."""
+    import glob
+    files = sorted(glob.glob(os.path.join(COQ, "theories", "*.v"))) + \
+        sorted(glob.glob(os.path.join(COQ, "props", "*.v")))
+    want = COQPROJECT_HEAD + "".join(os.path.relpath(f, COQ) + "\n" for f in files)
     cp = os.path.join(COQ, "_CoqProject")
-    if not os.path.exists(mk) or os.path.getmtime(mk) < os.path.getmtime(cp):
-        rc, out = sh("coq_makefile -f _CoqProject -o Makefile", cwd=COQ)
-        if rc != 0:
-            raise Infra("coq_makefile failed: " + out)
+    mk = os.path.join(COQ, "Makefile")
+    import fcntl
+    os.makedirs(CACHE, exist_ok=True)
+    with open(os.path.join(CACHE, "coqproject.lock"), "w") as lk:
+        fcntl.flock(lk, fcntl.LOCK_EX)
+        have = open(cp).read() if os.path.exists(cp) else ""
+        if have != want or not os.path.exists(mk):
+            open(cp, "w").write(want)
+            rc, out = sh("coq_makefile -f _CoqProject -o Makefile", cwd=COQ)
+            if rc != 0:
+                raise Infra("coq_makefile failed: " + out)
 
 
 def coq_make(targets, timeout=1800):
@@ -178,8 +196,14 @@ def audit(prop_file, pins):
 
 
 def load_pins():
-    p = os.path.join(VERIF, "pins.json")
-    return json.load(open(p)) if os.path.exists(p) else {}
+    """pins/<Cxx>.sha256 holds the SHA-256 of coq/props/<Cxx>.v (written by tools/pin.py)."""
+    pins = {}
+    d = os.path.join(VERIF, "pins")
+    if os.path.isdir(d):
+        for f in os.listdir(d):
+            if f.endswith(".sha256"):
+                pins["props/%s.v" % f[:-7]] = open(os.path.join(d, f)).read().strip()
+    return pins
 
 
 def parse_coq_value(out):
